@@ -6,6 +6,7 @@
 -/
 import Cgp.ItsOps
 import Cgp.Toy
+import Cgp.Proofs.C04
 namespace Cgp.Props.C11
 open Cgp Cgp.Xdr Cgp.Its
 
@@ -811,6 +812,385 @@ theorem remote_deploy_exact (st st' : State) (c i sa payload origin : Bytes) (d 
   subst ha hst1 hst'
   refine ⟨by simp, _, setTok_get _ _ _, rfl, rfl, rfl, rfl, rfl, rfl, fun _ => rfl, fun _ => rfl⟩
 
+/-! ### where every registry entry comes from (history level) -/
+
+/-- a service history recorded as (state before the call, the call, what was observed) -/
+def itrace (st : State) : List Op → List (State × Op × Obs)
+  | [] => []
+  | op :: ops => (st, op, (step H S k st op).2) :: itrace (step H S k st op).1 ops
+
+/-! #### helper lemmas for `registry_provenance`, and its CORRECTED forms
+  `registry_provenance` below is FALSE as stated (left `sorry`): `deployInterchainToken` never looks at the registry, so when the
+  interchain id of (deployer, salt) equals the canonical id of a registered token (a collision of `H`), a local deployment
+  overwrites the canonical entry; the final entry is then (derived address, native) while the only step that found the id
+  free was the canonical registration.  Proved instead: `registry_provenance_or_clash`, `registry_provenance_or_collision`,
+  `registry_provenance_of_no_clash`. -/
+
+/-- the three possible causes of the registry entry `tid ↦ (addr, mgr)` (the disjunction of `registry_provenance`) -/
+def Cause (tid : Bytes) (addr : Addr) (mgr : Manager) (st : State) (op : Op) (o : Obs) : Prop :=
+  (∃ auths caller salt name symbol dec supply minter evs,
+      op = .deploy auths caller salt name symbol dec supply minter ∧ o = .okId tid evs ∧ caller ∈ auths ∧
+      tid = interchainTokenId H k st.chainName caller salt ∧ mgr = .native ∧ addr = deployedAddress S k st.self tid) ∨
+  (∃ token evs, op = .registerCanonical token ∧ o = .okId tid evs ∧
+      tid = canonicalTokenId H k st.chainName token ∧ mgr = .lockUnlock ∧ addr = token) ∨
+  (∃ c i sa payload origin d evs,
+      op = .execute c i sa payload ∧ o = .ok evs ∧
+      Abi.decodeHub payload = .ok (.receiveFromHub origin (.deploy d)) ∧ d.tokenId = tid ∧
+      st.gw.approvals c i = .approved (Gateway.messageHash H ⟨c, i, sa, st.self, H payload⟩) ∧
+      mgr = .native ∧ addr = deployedAddress S k st.self tid)
+
+theorem step_self (st : State) (op : Op) : (step H S k st op).1.self = st.self := by
+  rcases step_cases H S k st op with hf | ⟨st3, tid, hf, _, _, heq, _⟩ | ⟨token, tid, _, heq⟩
+  · exact hf.1
+  · rw [heq]; exact hf.1
+  · rw [heq]
+
+/-- the ops that can write the registry -/
+def IsWriter : Op → Prop
+  | .deploy .. => True
+  | .registerCanonical _ => True
+  | .execute .. => True
+  | _ => False
+
+theorem step_frame_of_not_writer (st : State) (op : Op) (hw : ¬ IsWriter op) : Frame st (step H S k st op).1 := by
+  cases op with
+  | setTrusted au c =>
+    simp only [step, setTrustedChain]
+    split
+    · exact Frame.refl _
+    · split
+      · exact Frame.refl _
+      · exact frame_trusted _ _
+  | removeTrusted au c =>
+    simp only [step, removeTrustedChain]
+    split
+    · exact Frame.refl _
+    · split
+      · exact Frame.refl _
+      · exact frame_trusted _ _
+  | transferOwnership au n =>
+    simp only [step, transferOwnership]
+    split
+    · exact Frame.refl _
+    · exact frame_owner _ _
+  | deploy au ca sa n sy d su m => exact absurd trivial hw
+  | registerCanonical t => exact absurd trivial hw
+  | deployRemote au ca sa de gt ga =>
+    simp only [step, deployRemoteInterchainToken]
+    split
+    · exact Frame.refl _
+    · cases hd : deployRemoteToken H k st ca true (deploySalt H k st.chainName ca sa) de gt ga with
+      | error e => exact Frame.refl _
+      | ok r => obtain ⟨st', tid, evs⟩ := r; exact deployRemoteToken_frame H k hd
+  | deployRemoteCanonical au t de sp gt ga =>
+    simp only [step, deployRemoteCanonicalToken]
+    cases hd : deployRemoteToken H k st sp (decide (sp ∈ au)) (canonicalSalt H k st.chainName t) de gt ga with
+    | error e => exact Frame.refl _
+    | ok r => obtain ⟨st', tid, evs⟩ := r; exact deployRemoteToken_frame H k hd
+  | transfer au ca ti de da am dt gt ga =>
+    simp only [step]
+    cases hd : interchainTransfer H k st au ca ti de da am dt gt ga with
+    | error e => exact Frame.refl _
+    | ok r => obtain ⟨st', evs⟩ := r; exact interchainTransfer_frame H k hd
+  | execute c i sa p => exact absurd trivial hw
+  | gateway f => exact frame_gw _ _
+  | userTransfer t s d a au =>
+    simp only [step]
+    split
+    · exact Frame.refl _
+    · split
+      · rename_i st' ht; exact tokTransfer_frame ht
+      · exact Frame.refl _
+  | minterMint t m d a au =>
+    simp only [step]
+    split
+    · split
+      · exact Frame.refl _
+      · exact frame_setTok _ _ _
+    · exact Frame.refl _
+
+/-- one step: an entry that appears in this step was written by one of the three writers, with the stated facts -/
+theorem provenance_step (st : State) (op : Op) (tid : Bytes) (addr : Addr) (mgr : Manager)
+    (h0 : st.registry tid = none) (h1 : (step H S k st op).1.registry tid = some (addr, mgr)) :
+    Cause H S k tid addr mgr st op (step H S k st op).2 := by
+  by_cases hw : IsWriter op
+  · cases op with
+    | deploy au ca sa n sy d su m =>
+      left
+      have hstep : step H S k st (.deploy au ca sa n sy d su m) =
+          wrapId st (deployInterchainToken H S k st au ca sa n sy d su m) := rfl
+      rw [hstep] at h1 ⊢
+      cases hd : deployInterchainToken H S k st au ca sa n sy d su m with
+      | error e =>
+        rw [hd] at h1
+        simp only [wrapId] at h1
+        rw [h0] at h1; cases h1
+      | ok r =>
+        obtain ⟨st', tid', evs⟩ := r
+        rw [hd] at h1
+        simp only [wrapId] at h1 ⊢
+        obtain ⟨hau, htid, hnone, st3, hst', hcase⟩ := deploy_inv H S k hd
+        have hf : Frame st st3 := by
+          rcases hcase with ⟨_, _, rfl⟩ | ⟨_, st2, hm, ⟨_, rfl⟩ | ⟨m', t, _, _, rfl⟩⟩
+          · exact frame_setTok _ _ _
+          · exact Frame.trans (frame_setTok _ _ _) (tokMint_frame hm)
+          · exact Frame.trans (Frame.trans (frame_setTok _ _ _) (tokMint_frame hm)) (frame_setTok _ _ _)
+        rw [hst'] at h1
+        simp only at h1
+        by_cases hxt : tid = tid'
+        · subst hxt
+          simp only [if_true, Option.some.injEq, Prod.mk.injEq] at h1
+          exact ⟨au, ca, sa, n, sy, d, su, m, evs, rfl, rfl, hau, htid, h1.2.symm, h1.1.symm⟩
+        · simp only [hxt, if_false] at h1
+          rw [hf.2.2.1, h0] at h1; cases h1
+    | registerCanonical t =>
+      right; left
+      have hstep : step H S k st (.registerCanonical t) = wrapId st (registerCanonicalToken H k st t) := rfl
+      rw [hstep] at h1 ⊢
+      unfold registerCanonicalToken at h1 ⊢
+      simp only at h1 ⊢
+      split at h1
+      · simp only [wrapId] at h1
+        rw [h0] at h1; cases h1
+      · rename_i hreg
+        rw [if_neg hreg]
+        simp only [wrapId] at h1 ⊢
+        by_cases hxt : tid = tokenIdOf H k zeroAddr (canonicalSalt H k st.chainName t)
+        · simp only [hxt, if_true, Option.some.injEq, Prod.mk.injEq] at h1
+          exact ⟨t, _, rfl, by rw [hxt], hxt, h1.2.symm, h1.1.symm⟩
+        · simp only [hxt, if_false] at h1
+          rw [h0] at h1; cases h1
+    | execute c i sa p =>
+      right; right
+      have hstep : step H S k st (.execute c i sa p) = wrapEv st (execute H S k st c i sa p) := rfl
+      rw [hstep] at h1 ⊢
+      cases hd : execute H S k st c i sa p with
+      | error e =>
+        rw [hd] at h1
+        simp only [wrapEv] at h1
+        rw [h0] at h1; cases h1
+      | ok r =>
+        obtain ⟨st', evs⟩ := r
+        rw [hd] at h1
+        simp only [wrapEv] at h1 ⊢
+        have happ := (Cgp.Proofs.C04.execute_inv H S k hd).1
+        obtain ⟨gw', origin, inner, hdec, hin⟩ := execute_inv H S k hd
+        cases inner with
+        | transfer t =>
+          have hf : Frame st st' := hin
+          rw [hf.2.2.1, h0] at h1; cases h1
+        | deploy dd =>
+          obtain ⟨hreg, st1, a, ev, hdt, hst'⟩ := hin
+          obtain ⟨ha, hnone, hst1⟩ := deployTokenContract_inv S k hdt
+          subst ha hst1
+          rw [hst'] at h1
+          simp only at h1
+          by_cases hxt : tid = dd.tokenId
+          · subst hxt
+            simp only [if_true, Option.some.injEq, Prod.mk.injEq] at h1
+            exact ⟨c, i, sa, p, origin, dd, evs, rfl, rfl, hdec, rfl, happ, h1.2.symm, h1.1.symm⟩
+          · simp only [hxt, if_false] at h1
+            have : (setTok { st with gw := gw' } (deployedAddress S k st.self dd.tokenId)
+                (freshTok { st with gw := gw' } (dd.minter.bind addrFromXdr) dd.tokenId dd.name dd.symbol dd.decimals)).registry tid
+                = st.registry tid := rfl
+            rw [this, h0] at h1; cases h1
+    | _ => exact absurd hw (by simp [IsWriter])
+  · exfalso
+    have hf := step_frame_of_not_writer H S k st op hw
+    rw [hf.2.2.1, h0] at h1; cases h1
+
+/-! write-once for ONE id, from the invariant for that id only (so that no assumption on the other entries is needed) -/
+
+def RegInvAt (st : State) (tid : Bytes) : Prop :=
+  ∀ addr, st.registry tid = some (addr, .native) → addr = deployedAddress S k st.self tid ∧ (st.tokens addr).isSome = true
+
+theorem regInvAt_step (st : State) (op : Op) (tid : Bytes) (h : RegInvAt S k st tid) :
+    RegInvAt S k (step H S k st op).1 tid := by
+  intro a hx
+  rcases step_cases H S k st op with hf | ⟨st3, tid', hf, hsome, _, heq, _⟩ | ⟨token, tid', _, heq⟩
+  · obtain ⟨hs, _, hr, ht⟩ := hf
+    rw [hr] at hx
+    obtain ⟨h1, h2⟩ := h a hx
+    rw [hs]
+    exact ⟨h1, ht _ h2⟩
+  · rw [heq] at hx ⊢
+    simp only at hx ⊢
+    obtain ⟨hs, _, hr, ht⟩ := hf
+    by_cases hxt : tid = tid'
+    · subst hxt
+      simp only [if_true, Option.some.injEq, Prod.mk.injEq, and_true] at hx
+      subst hx
+      rw [hs]
+      exact ⟨rfl, hsome⟩
+    · simp only [hxt, if_false] at hx
+      rw [hr] at hx
+      obtain ⟨h1, h2⟩ := h a hx
+      rw [hs]
+      exact ⟨h1, ht _ h2⟩
+  · rw [heq] at hx ⊢
+    simp only at hx ⊢
+    by_cases hxt : tid = tid'
+    · simp [hxt] at hx
+    · simp only [hxt, if_false] at hx
+      exact h a hx
+
+theorem write_once_step_at (st : State) (op : Op) (tid : Bytes) (v : Addr × Manager) (hinv : RegInvAt S k st tid)
+    (h : st.registry tid = some v) (hnc : v.2 = .lockUnlock → ¬ DeploysId H k st.chainName tid op) :
+    (step H S k st op).1.registry tid = some v := by
+  rcases step_cases H S k st op with hf | ⟨st3, tid', hf, hsome, hnone, heq, hor⟩ | ⟨token, tid', hnone, heq⟩
+  · rw [hf.2.2.1]; exact h
+  · rw [heq]
+    simp only
+    by_cases hxt : tid = tid'
+    · exfalso
+      subst hxt
+      obtain ⟨a, m⟩ := v
+      cases m with
+      | native =>
+        have h2 := (hinv a h).2
+        rw [(hinv a h).1] at h2
+        rw [hnone] at h2
+        cases h2
+      | lockUnlock =>
+        rcases hor with hor | ⟨au, ca, sa, n, sy, d, su, m, rfl, hid⟩
+        · rw [h] at hor; cases hor
+        · exact hnc rfl hid
+    · simp only [hxt, if_false]
+      rw [hf.2.2.1]; exact h
+  · rw [heq]
+    simp only
+    by_cases hxt : tid = tid'
+    · subst hxt
+      rw [h] at hnone
+      cases hnone
+    · simp only [hxt, if_false]
+      exact h
+
+/-- an entry stays as it is, unless it is a canonical one and a later local deployment derives the very same id -/
+theorem stable_or_clash (st : State) (ops : List Op) (tid : Bytes) (v : Addr × Manager) (hinv : RegInvAt S k st tid)
+    (h : st.registry tid = some v) :
+    (run H S k st ops).1.registry tid = some v ∨
+    (v.2 = .lockUnlock ∧ ∃ op ∈ ops, DeploysId H k st.chainName tid op) := by
+  induction ops generalizing st with
+  | nil => left; simpa [run] using h
+  | cons op ops ih =>
+    simp only [run]
+    by_cases hc : v.2 = .lockUnlock ∧ DeploysId H k st.chainName tid op
+    · exact Or.inr ⟨hc.1, op, List.mem_cons_self .., hc.2⟩
+    · have h' := write_once_step_at H S k st op tid v hinv h (fun hv hd => hc ⟨hv, hd⟩)
+      rcases ih _ (regInvAt_step H S k st op tid hinv) h' with hst | ⟨hv, op', hop', hd⟩
+      · exact Or.inl hst
+      · rw [step_chainName] at hd
+        exact Or.inr ⟨hv, op', List.mem_cons_of_mem _ hop', hd⟩
+
+/-- registry provenance, raw form (a first, unconditional statement was refuted by `clash_overwrites_canonical_entry`):
+    either the cause is found in the history, or the history contains a canonical registration AND a local deployment whose
+    ids both equal `tid` — which `interchain_ne_canonical` turns into a collision of `H` for host-sized inputs
+    (see `registry_provenance_or_collision`). -/
+theorem registry_provenance_or_clash (st0 : State) (ops : List Op) (tid : Bytes) (addr : Addr) (mgr : Manager)
+    (h0 : st0.registry tid = none) (hfin : (run H S k st0 ops).1.registry tid = some (addr, mgr)) :
+    (∃ st op o, (st, op, o) ∈ itrace H S k st0 ops ∧ st.registry tid = none ∧ st.chainName = st0.chainName ∧ st.self = st0.self ∧
+      Cause H S k tid addr mgr st op o) ∨
+    (∃ token au caller salt n sy d su m, Op.registerCanonical token ∈ ops ∧ Op.deploy au caller salt n sy d su m ∈ ops ∧
+      tid = canonicalTokenId H k st0.chainName token ∧ tid = interchainTokenId H k st0.chainName caller salt) := by
+  induction ops generalizing st0 with
+  | nil =>
+    simp only [run] at hfin
+    rw [h0] at hfin; cases hfin
+  | cons op ops ih =>
+    simp only [run] at hfin
+    cases hmid : (step H S k st0 op).1.registry tid with
+    | none =>
+      rcases ih (step H S k st0 op).1 hmid hfin with ⟨st, op', o, hmem, hn, hc, hs, hcase⟩ |
+          ⟨token, au, caller, salt, n, sy, d, su, m, hr, hdp, h1, h2⟩
+      · left
+        refine ⟨st, op', o, ?_, hn, ?_, ?_, hcase⟩
+        · simp only [itrace]; exact List.mem_cons_of_mem _ hmem
+        · rw [hc, step_chainName]
+        · rw [hs, step_self]
+      · right
+        rw [step_chainName] at h1 h2
+        exact ⟨token, au, caller, salt, n, sy, d, su, m, List.mem_cons_of_mem _ hr, List.mem_cons_of_mem _ hdp, h1, h2⟩
+    | some v =>
+      obtain ⟨a, m⟩ := v
+      have hcause := provenance_step H S k st0 op tid a m h0 hmid
+      have hinv0 : RegInvAt S k st0 tid := by
+        intro x hx; rw [h0] at hx; cases hx
+      have hinv1 := regInvAt_step H S k st0 op tid hinv0
+      rcases stable_or_clash H S k (step H S k st0 op).1 ops tid (a, m) hinv1 hmid with hst | ⟨hv, op', hop', hd⟩
+      · rw [hst] at hfin
+        simp only [Option.some.injEq, Prod.mk.injEq] at hfin
+        obtain ⟨rfl, rfl⟩ := hfin
+        left
+        refine ⟨st0, op, _, ?_, h0, rfl, rfl, hcause⟩
+        simp only [itrace]; exact List.mem_cons_self ..
+      · right
+        simp only at hv
+        subst hv
+        rw [step_chainName] at hd
+        rcases hcause with ⟨_, _, _, _, _, _, _, _, _, _, _, _, _, hm, _⟩ | ⟨token, evs, hop, _, htid, _, _⟩ |
+            ⟨_, _, _, _, _, _, _, _, _, _, _, _, hm, _⟩
+        · cases hm
+        · cases op' with
+          | deploy au ca sa n sy d su mi =>
+            simp only [DeploysId] at hd
+            subst hop
+            exact ⟨token, au, ca, sa, n, sy, d, su, mi, List.mem_cons_self .., List.mem_cons_of_mem _ hop', htid, hd.symm⟩
+          | _ => simp only [DeploysId] at hd
+        · cases hm
+
+/-- the inputs of the two id-deriving calls are host values -/
+def OpWF : Op → Prop
+  | .deploy _ caller salt _ _ _ _ _ => caller.WF ∧ Small salt
+  | .registerCanonical token => token.WF
+  | _ => True
+
+/-- **every registry entry has one of three causes**: in ANY history, an id that was free at the start and is registered at
+    the end was registered by exactly one of
+    * a local deployment authorised by its caller — the id is the interchain id of (chain name, that caller, its salt), the
+      manager is mint/burn and the token address is the address derived from (service, id);
+    * a canonical registration — the id is the canonical id of (chain name, that token), the manager is lock/unlock and
+      the token address is that token;
+    * the delivery of a hub message, approved at the gateway for the service with exactly this payload, that decodes to a
+      remote deployment of this very id — mint/burn manager, derived address.
+    Nothing else ever writes the registry — or a hash collision is exhibited (`deploy_interchain_token` itself never looks at
+    the registry: that a local deployment cannot land on the id of a canonical registration rests on the domain-separating
+    prefixes and collision-freeness of the hash, see `clash_overwrites_canonical_entry`). -/
+theorem registry_provenance_or_collision (st0 : State) (ops : List Op) (tid : Bytes) (addr : Addr) (mgr : Manager)
+    (hc : Small st0.chainName) (hp : Small k.prefixTokenSalt) (hp' : Small k.prefixCanonicalSalt) (hp2 : Small k.prefixTokenId)
+    (hh : ∀ x, Small (H x)) (hne : k.prefixTokenSalt ≠ k.prefixCanonicalSalt) (hops : ∀ op ∈ ops, OpWF op)
+    (h0 : st0.registry tid = none) (hfin : (run H S k st0 ops).1.registry tid = some (addr, mgr)) :
+    (∃ st op o, (st, op, o) ∈ itrace H S k st0 ops ∧ st.registry tid = none ∧ st.chainName = st0.chainName ∧ st.self = st0.self ∧
+      Cause H S k tid addr mgr st op o) ∨ Collision H := by
+  rcases registry_provenance_or_clash H S k st0 ops tid addr mgr h0 hfin with h |
+      ⟨token, au, caller, salt, n, sy, d, su, m, hr, hdp, h1, h2⟩
+  · exact Or.inl h
+  · right
+    have hw1 : token.WF := hops _ hr
+    have hw2 : caller.WF ∧ Small salt := hops _ hdp
+    exact interchain_ne_canonical H k _ _ caller token salt hc hc hw2.1 hw1 hw2.2 hp hp' hp2 hh hne (h2.symm.trans h1)
+
+/-- the statement as given, under the extra hypothesis that no id is both canonical and interchain on this chain -/
+theorem registry_provenance_of_no_clash (st0 : State) (ops : List Op) (tid : Bytes) (addr : Addr) (mgr : Manager)
+    (hnc : ∀ token caller salt, canonicalTokenId H k st0.chainName token ≠ interchainTokenId H k st0.chainName caller salt)
+    (h0 : st0.registry tid = none) (hfin : (run H S k st0 ops).1.registry tid = some (addr, mgr)) :
+    ∃ st op o, (st, op, o) ∈ itrace H S k st0 ops ∧ st.registry tid = none ∧ st.chainName = st0.chainName ∧ st.self = st0.self ∧
+      ((∃ auths caller salt name symbol dec supply minter evs,
+          op = .deploy auths caller salt name symbol dec supply minter ∧ o = .okId tid evs ∧ caller ∈ auths ∧
+          tid = interchainTokenId H k st.chainName caller salt ∧ mgr = .native ∧ addr = deployedAddress S k st.self tid) ∨
+       (∃ token evs, op = .registerCanonical token ∧ o = .okId tid evs ∧
+          tid = canonicalTokenId H k st.chainName token ∧ mgr = .lockUnlock ∧ addr = token) ∨
+       (∃ c i sa payload origin d evs,
+          op = .execute c i sa payload ∧ o = .ok evs ∧
+          Abi.decodeHub payload = .ok (.receiveFromHub origin (.deploy d)) ∧ d.tokenId = tid ∧
+          st.gw.approvals c i = .approved (Gateway.messageHash H ⟨c, i, sa, st.self, H payload⟩) ∧
+          mgr = .native ∧ addr = deployedAddress S k st.self tid)) := by
+  rcases registry_provenance_or_clash H S k st0 ops tid addr mgr h0 hfin with h |
+      ⟨token, _, caller, salt, _, _, _, _, _, _, _, h1, h2⟩
+  · exact h
+  · exact absurd (h1.symm.trans h2) (hnc token caller salt)
+
+
 /-! ### non-vacuity (the service model RUN in the kernel on a concrete history, toy hash) -/
 section NonVacuity
 open Cgp.Toy
@@ -899,6 +1279,18 @@ theorem registry_write_once_nonvacuous :
     [tid1, tidc, tid2].map (run H0 S0 k0 (run H0 S0 k0 st0 ops1).1 ops2).1.registry =
       [some (a1, .native), some (canon, .lockUnlock), some (deployedAddress S0 k0 svc tid2, .native)] := by
   refine ⟨regInv_st0, regInv_run H0 S0 k0 _ _ regInv_st0, eq_ok_of_toOption _ _ (by decide +kernel), ?_⟩
+  decide +kernel
+
+/-- a hash without any collision resistance (constant): the interchain id of (user, salt) and the canonical id of `canon` coincide -/
+def Hc : Bytes → Bytes := fun _ => []
+
+/-- WHY the provenance and write-once theorems carry a no-collision side condition: `deploy_interchain_token` never looks at
+    the registry, so under a colliding hash a local deployment OVERWRITES a canonical registration (kernel-run) -/
+theorem clash_overwrites_canonical_entry :
+    canonicalTokenId Hc k0 [115] canon = interchainTokenId Hc k0 [115] user salt ∧
+    (step Hc S0 k0 st0 (.registerCanonical canon)).1.registry [] = some (canon, .lockUnlock) ∧
+    (run Hc S0 k0 st0 [.registerCanonical canon, .deploy [user] user salt [84] [84] 6 0 none]).1.registry [] =
+      some (deployedAddress S0 k0 svc [], .native) := by
   decide +kernel
 
 end NonVacuity
